@@ -191,6 +191,9 @@ func init() {
 		}
 		return mkStr(filepath.Join(parts...))
 	})
+	N("path/filepath.Base", func(e *Exec, _ *frame, a []Value) Value {
+		return mkStr(filepath.Base(e.needStr(a[0], "filepath.Base")))
+	})
 	N("path/filepath.Dir", func(e *Exec, _ *frame, a []Value) Value {
 		return mkStr(filepath.Dir(e.needStr(a[0], "filepath.Dir")))
 	})
